@@ -63,16 +63,17 @@ UpgradeStates(d) ==
       v == c.ver[1]
   IN IF v = Target THEN [states |-> <<>>, result |-> "ok"]
      ELSE IF v > Target THEN [states |-> <<>>, result |-> "error"]
-     ELSE LET d1 == Dir(c, d.temps, c)      \* shutil.copy(dbfile, backup)
+     ELSE LET d0 == Dir(c, d.temps, [t |-> "junk", sha |-> "new"])   \* the copy half written
+              d1 == Dir(c, d.temps, c)      \* shutil.copy(dbfile, backup) complete
           IN IF v \notin HasUpgrader
-             THEN [states |-> <<d1>>, result |-> "error"]
+             THEN [states |-> <<d0, d1>>, result |-> "error"]
              ELSE \* usage v1 -> v2: three CREATEs, DELETE version, INSERT version
                   LET done == Dir(NewDb(Full(v + 1), <<v + 1>>, c.data), d.temps, c)
                       mid(k) == Dir(NewDb(IF k >= 4 THEN Full(v + 1) ELSE "upg:" \o ToString(k),
                                           IF k >= 4 THEN <<>> ELSE c.ver, c.data), d.temps, c)
                   IN IF AtomicUpgrade
-                     THEN [states |-> <<d1, done>>, result |-> "ok"]
-                     ELSE [states |-> <<d1>> \o [k \in 1..4 |-> mid(k)] \o <<done>>, result |-> "ok"]
+                     THEN [states |-> <<d0, d1, done>>, result |-> "ok"]
+                     ELSE [states |-> <<d0, d1>> \o [k \in 1..4 |-> mid(k)] \o <<done>>, result |-> "ok"]
 
 \* a run of an entry point: the durable states it passes through and its result
 Run(entry, d) ==
